@@ -25,6 +25,10 @@ pub struct ConcRun {
     pub seed: u64,
     pub sched: SchedSpec,
     pub tasks: Vec<Vec<IoOp>>,
+    /// fault `caller_killed_mid_call`: (task, op, k) = that call is unwound at the k-th
+    /// scheduling point it reaches (as a cancelled or panicking caller thread would be)
+    #[serde(default)]
+    pub kills: Vec<(usize, usize, u32)>,
 }
 
 impl ConcRun {
@@ -40,6 +44,7 @@ pub fn gen_conc_run(verif_seed: u64, j: u64) -> ConcRun {
     let n_tasks = rng.range(2, 4) as usize;
     let faulty = rng.chance(1, 2);
     let same_content = rng.chance(1, 3);
+    let same_stem = rng.chance(1, 2);
     let shared_qr = gen_qr_for_io(&mut rng, Kind::Svg);
     let mut tasks = Vec::new();
     for t in 0..n_tasks {
@@ -71,8 +76,10 @@ pub fn gen_conc_run(verif_seed: u64, j: u64) -> ConcRun {
                 2 => Pre::Longer(*rng.pick(&[1usize, 4096])),
                 _ => Pre::Garbage,
             };
-            // the name is unique per (task, op) unless the task deliberately rewrites its own file
-            let name = if k > 0 && rng.chance(1, 3) { format!("t{}-0.out", t) } else { format!("t{}-{}.out", t, k) };
+            // distinct targets per (task, op) - unless the task deliberately rewrites its own file -
+            // in one of two naming styles: different stems, or one stem with different extensions
+            let kk = if k > 0 && rng.chance(1, 3) { 0 } else { k };
+            let name = if same_stem { format!("label.t{}k{}", t, kk) } else { format!("t{}-{}.out", t, kk) };
             ops.push(IoOp {
                 kind,
                 qr,
@@ -96,11 +103,23 @@ pub fn gen_conc_run(verif_seed: u64, j: u64) -> ConcRun {
         }
         _ => Policy::OpBoundary(1.0),
     };
+    let mut kills = Vec::new();
+    if faulty && rng.chance(1, 3) {
+        let t = rng.usize_below(tasks.len());
+        let o = rng.usize_below(tasks[t].len());
+        let k = match rng.below(3) {
+            0 => rng.below(10) as u32,
+            1 => rng.below(80) as u32,
+            _ => rng.below(400) as u32,
+        };
+        kills.push((t, o, k));
+    }
     ConcRun {
         index,
         seed,
         sched: SchedSpec { policy, seed: rng.next_u64() },
         tasks,
+        kills,
     }
 }
 
@@ -125,11 +144,15 @@ pub fn exec_conc(ctx: &Ctx, run: &ConcRun, stats: &mut Stats) -> ConcReport {
     let sim = Sim::new(n, &run.sched);
     let shared: Arc<Mutex<(Stats, Option<(usize, Violation)>, u64)>> = Arc::new(Mutex::new((Stats::default(), None, run.seed)));
     let run_arc = Arc::new(run.clone());
+    // every operation's expected bytes, computed before any caller runs (nothing a caller
+    // leaves behind - a poisoned lock, a dirty buffer - can then redefine "expected")
+    let prepared: Arc<Vec<Vec<Option<Prepared>>>> = Arc::new(run.tasks.iter().map(|ops| ops.iter().map(|op| prepare(op).ok()).collect()).collect());
     let mut handles = Vec::new();
     for id in 0..n {
         let sim = sim.clone();
         let shared = shared.clone();
         let run = run_arc.clone();
+        let prepared = prepared.clone();
         let dir = dir.clone();
         let h = std::thread::Builder::new()
             .name(format!("io-task{}", id))
@@ -141,10 +164,19 @@ pub fn exec_conc(ctx: &Ctx, run: &ConcRun, stats: &mut Stats) -> ConcReport {
                     if shared.lock().unwrap().1.is_some() {
                         break;
                     }
+                    let Some(pre) = prepared[id][i].as_ref() else {
+                        // not a C19 case (the QR code or the in-memory rendering is not Ok)
+                        local.ops_skipped += 1;
+                        continue;
+                    };
                     sched::op_boundary(&sim, id);
-                    sched::op_begin(&sim, id, &sched::Crash::default());
+                    let crash = sched::Crash {
+                        at: run.kills.iter().find(|(t, o, _)| *t == id && *o == i).map(|(_, _, k)| *k),
+                        site: None,
+                    };
+                    sched::op_begin(&sim, id, &crash);
                     shim::set_yield_at_syscalls(true);
-                    let rep = exec_op(&dir, i, op, &mut local);
+                    let rep = exec_op(&dir, i, op, &mut local, Some(pre));
                     shim::set_yield_at_syscalls(false);
                     sched::op_end(&sim, id);
                     let mut g = shared.lock().unwrap();
@@ -277,6 +309,13 @@ pub fn minimise_conc(run: &ConcRun, v: &Violation) -> (ConcRun, Violation, serde
                     cur = cand;
                 }
             }
+        }
+    }
+    if !cur.kills.is_empty() {
+        let mut cand = cur.clone();
+        cand.kills.clear();
+        if fails(&cand, &mut best, &mut evals) {
+            cur = cand;
         }
     }
     // is the interleaving needed at all?
